@@ -3,8 +3,72 @@
 use crate::core::{Hist, Monitor, Tier};
 use crate::cw1w::*;
 use crate::direct::Res;
+use cosmwasm_std::{to_json_binary, Binary, CosmosMsg, Empty, WasmMsg};
+use cw1_whitelist::msg::ExecuteMsg as WlMsg;
 
 pub struct C17;
+
+/// a message the proxy is asked to relay to itself
+#[derive(Clone, Debug)]
+enum SelfCall {
+    Update(Vec<String>),
+    Freeze,
+    Exec(Vec<SelfCall>),
+    Garbage,
+}
+
+fn self_msg(me: &str, c: &SelfCall) -> CosmosMsg {
+    let body: Binary = match c {
+        SelfCall::Update(l) => to_json_binary(&WlMsg::<Empty>::UpdateAdmins { admins: l.clone() }).unwrap(),
+        SelfCall::Freeze => to_json_binary(&WlMsg::<Empty>::Freeze {}).unwrap(),
+        SelfCall::Exec(inner) => to_json_binary(&WlMsg::<Empty>::Execute { msgs: inner.iter().map(|c| self_msg(me, c)).collect() }).unwrap(),
+        SelfCall::Garbage => Binary::from(b"{\"no_such_call\":{}}".to_vec()),
+    };
+    WasmMsg::Execute { contract_addr: me.to_string(), msg: body, funds: vec![] }.into()
+}
+
+/// the self-directed calls among `msgs`, in order (other messages are not the proxy's business)
+fn parse_self(me: &str, msgs: &[CosmosMsg]) -> Vec<SelfCall> {
+    msgs.iter()
+        .filter_map(|m| match m {
+            CosmosMsg::Wasm(WasmMsg::Execute { contract_addr, msg, .. }) if contract_addr == me => Some(match cosmwasm_std::from_json::<WlMsg<Empty>>(msg) {
+                Ok(WlMsg::UpdateAdmins { admins }) => SelfCall::Update(admins),
+                Ok(WlMsg::Freeze {}) => SelfCall::Freeze,
+                Ok(WlMsg::Execute { msgs }) => SelfCall::Exec(parse_self(me, &msgs)),
+                Err(_) => SelfCall::Garbage,
+            }),
+            _ => None,
+        })
+        .collect()
+}
+
+/// what the statement allows the proxy's own calls to do: they count as calls by the address `me`
+fn simulate(me: &str, admins: &mut Vec<String>, mutable: &mut bool, calls: &[SelfCall]) -> bool {
+    for c in calls {
+        let is_admin = admins.iter().any(|a| a == me);
+        match c {
+            SelfCall::Update(l) => {
+                if !is_admin || !*mutable {
+                    return false;
+                }
+                *admins = l.clone();
+            }
+            SelfCall::Freeze => {
+                if !is_admin || !*mutable {
+                    return false;
+                }
+                *mutable = false;
+            }
+            SelfCall::Exec(inner) => {
+                if !is_admin || !simulate(me, admins, mutable, inner) {
+                    return false;
+                }
+            }
+            SelfCall::Garbage => return false,
+        }
+    }
+    true
+}
 
 impl C17 {
     fn step(&self, h: &mut Hist, p: &mut Proxy, frozen_seen: &mut bool, former: &mut Vec<String>, pre: &mut Snap, sender: &str, op: &Op) -> bool {
@@ -27,8 +91,37 @@ impl C17 {
         h.out.state(&(post.admins.len(), post.mutable, post.raw.len(), post.perms.len()));
 
         let list_changed = pre.admins != post.admins || pre.mutable != post.mutable;
+        // calls the proxy relays to itself are calls by the proxy's address: they may change the list only if
+        // that address is an admin at that moment and the list is still mutable
+        let me = p.w.contract.to_string();
+        let via_self = match op {
+            Op::Execute { msgs } if was_admin => {
+                let calls = parse_self(&me, msgs);
+                if calls.is_empty() {
+                    None
+                } else {
+                    h.out.count("relays_to_the_proxy_itself");
+                    let (mut a, mut m) = (pre.admins.clone(), pre.mutable);
+                    if simulate(&me, &mut a, &mut m, &calls) {
+                        Some((a, m))
+                    } else {
+                        None
+                    }
+                }
+            }
+            _ => None,
+        };
         if list_changed {
-            let legit = ok && was_admin && pre.mutable && matches!(op, Op::UpdateAdmins { .. } | Op::Freeze);
+            let by_self = ok && via_self.as_ref().map(|(a, m)| *a == post.admins && *m == post.mutable).unwrap_or(false);
+            if by_self {
+                h.out.count("list_changes_through_a_self_relay_by_an_admin_proxy");
+                for a in &pre.admins {
+                    if !post.admins.contains(a) && !former.contains(a) {
+                        former.push(a.clone());
+                    }
+                }
+            }
+            let legit = by_self || ok && was_admin && pre.mutable && matches!(op, Op::UpdateAdmins { .. } | Op::Freeze);
             if !h.check(legit, &format!("C17/{:?}/{kind}/admin-list-changed-without-authority", p.kind), || {
                 format!("admins {:?}/{} -> {:?}/{} in {kind} by {sender} (admin={was_admin}, mutable={}, ok={ok})", pre.admins, pre.mutable, post.admins, post.mutable, pre.mutable)
             }) {
@@ -40,6 +133,11 @@ impl C17 {
         }
         if !pre.mutable || *frozen_seen {
             h.out.count("calls_after_freeze");
+            if let Op::Execute { msgs } = op {
+                if was_admin && !parse_self(&me, msgs).is_empty() {
+                    h.out.count("self_relays_on_a_frozen_proxy");
+                }
+            }
             if !h.check(!list_changed, &format!("C17/{:?}/{kind}/changed-after-freeze", p.kind), || {
                 format!("{:?}/{} -> {:?}/{}", pre.admins, pre.mutable, post.admins, post.mutable)
             }) {
@@ -183,6 +281,9 @@ impl Monitor for C17 {
             "migrations_run",
             "migrations_of_a_frozen_proxy",
             "calls_by_lookalike_of_an_admin",
+            "relays_to_the_proxy_itself",
+            "list_changes_through_a_self_relay_by_an_admin_proxy",
+            "self_relays_on_a_frozen_proxy",
         ]
     }
     fn rule(&self) -> &'static str {
@@ -194,7 +295,11 @@ impl Monitor for C17 {
     fn run_history(&self, h: &mut Hist) {
         let kind = if h.idx % 2 == 0 { Kind::Whitelist } else { Kind::Subkeys };
         let mut p = Proxy::new(&mut h.rng, kind);
-        let (admins, mutable) = gen_admins(&mut h.rng);
+        p.dispatch_self = true;
+        let (mut admins, mutable) = gen_admins(&mut h.rng);
+        if h.rng.chance(1, 5) {
+            admins.push(p.w.contract.to_string()); // a proxy that administers itself
+        }
         let r = p.instantiate(admins.clone(), mutable);
         h.note(format!("{kind:?} instantiate admins={admins:?} mutable={mutable} => {}", r.class()));
         if !r.is_ok() {
@@ -240,9 +345,35 @@ impl Monitor for C17 {
                 gen_advance(&mut h.rng, &mut p, &s);
                 pre = p.snap();
             }
-            let (mut sender, op) = gen_op(&mut h.rng, &p, &pre);
+            let (mut sender, mut op) = gen_op(&mut h.rng, &p, &pre);
             if !former.is_empty() && h.rng.chance(1, 5) {
                 sender = h.rng.pick_cloned(&former);
+            }
+            let me = p.w.contract.to_string();
+            if let (Op::UpdateAdmins { admins }, true) = (&mut op, h.rng.chance(1, 6)) {
+                admins.push(me.clone()); // the proxy as one of its own admins
+            }
+            if h.rng.chance(1, 7) {
+                // ask the proxy to relay administration calls to itself
+                let pl = crate::cw20w::pool();
+                let one = |rng: &mut crate::rng::Rng| match rng.below(8) {
+                    0..=3 => {
+                        let mut l: Vec<String> = (0..rng.below(4)).map(|_| rng.pick_cloned(&pl.actors[..4])).collect();
+                        if rng.chance(1, 2) {
+                            l.push(me.clone());
+                        }
+                        SelfCall::Update(l)
+                    }
+                    4 | 5 => SelfCall::Freeze,
+                    6 => SelfCall::Garbage,
+                    _ => SelfCall::Exec(vec![if rng.chance(1, 2) { SelfCall::Freeze } else { SelfCall::Update(vec![rng.pick_cloned(&pl.actors[..4]), me.clone()]) }]),
+                };
+                let k = 1 + h.rng.below(2);
+                let calls: Vec<SelfCall> = (0..k).map(|_| one(&mut h.rng)).collect();
+                op = Op::Execute { msgs: calls.iter().map(|c| self_msg(&me, c)).collect() };
+                if !pre.admins.is_empty() && h.rng.chance(4, 5) {
+                    sender = h.rng.pick_cloned(&pre.admins);
+                }
             }
             if !self.step(h, &mut p, &mut frozen, &mut former, &mut pre, &sender, &op) {
                 return;
